@@ -6,7 +6,7 @@
    This generalises JsonRoundTrip.event_json_roundtrip (the order Event::as_json writes). *)
 From Coq Require Import List NArith Lia Bool Permutation.
 Import ListNotations.
-From Pocket Require Import Bytes Layout Codec JsonParse EscapeProofs EscapeRoundTrip HexProofs NumProofs CanonInj JsonRoundTrip FilterRoundTrip JsonSkip.
+From Pocket Require Import Bytes Layout Codec JsonParse EscapeProofs EscapeRoundTrip HexProofs NumProofs CanonInj JsonRoundTrip FilterRoundTrip JsonSkip TagsWs.
 Open Scope N_scope.
 Arguments N.add : simpl never. Arguments N.sub : simpl never. Arguments N.mul : simpl never.
 Arguments N.eqb : simpl never. Arguments N.ltb : simpl never. Arguments N.leb : simpl never.
@@ -47,10 +47,10 @@ Proof. destruct a, b, c, d, f, t; repeat split; reflexivity. Qed.
 
 Section Any.
   Variable e : aevent.
-  Variable tes : list (list bytes).
+  Variable T : bytes -> bytes.        (* the tags text: T K is what follows the array's opening bracket, then K *)
   Variable cj : bytes.
   Hypothesis W : wf_event_json e.
-  Hypothesis H2 : Forall2 (Forall2 escd) (e_tags e) tes.
+  Hypothesis HT : tagsd (e_tags e) T.
   Hypothesis Hcj : escd (e_content e) cj.     (* cj: ANY spelling of the content *)
   (* the caller's buffer, cut at the fixed fields *)
   Variables x0 x4 x8 x16 x48 x80 F : bytes.
@@ -74,7 +74,7 @@ Section Any.
     | KSig => 115 :: 105 :: 103 :: 34 :: 58 :: 34 :: write_hex (e_sig e) ++ 34 :: K
     | KKind => 107 :: 105 :: 110 :: 100 :: 34 :: 58 :: dec (e_kind e) ++ K
     | KCreated => 99 :: 114 :: 101 :: 97 :: 116 :: 101 :: 100 :: 95 :: 97 :: 116 :: 34 :: 58 :: dec (e_created e) ++ K
-    | KTags => 116 :: 97 :: 103 :: 115 :: 34 :: 58 :: 91 :: tags_body tes K
+    | KTags => 116 :: 97 :: 103 :: 115 :: 34 :: 58 :: 91 :: T K
     | KContent => 99 :: 111 :: 110 :: 116 :: 101 :: 110 :: 116 :: 34 :: 58 :: 34 :: cj ++ 34 :: K
     end.
 
@@ -163,24 +163,43 @@ Section Any.
     rewrite (Hbu rest). reflexivity.
   Qed.
 
-  (* the tags after the content: the remembered content is decoded behind them *)
-  Lemma em_tags_late st x0' pre F' ts tes' sv ev rest0 tail : Forall2 (Forall2 escd) ts tes' -> fits_tags ts -> escd sv ev ->
-    tags_size ts + 4 + len sv <= len F' -> has_bit (ev_complete st) HAVE_TAGS = false ->
-    ev_out st = (x0' ++ pre) ++ F' -> len x0' = 4 -> len (x0' ++ pre) = 144 -> ev_content_start st = Some (34 :: ev ++ 34 :: rest0) ->
-    event_member st (116 :: 97 :: 103 :: 115 :: 34 :: 58 :: 91 :: tags_body tes' tail)
-    = Ok (mkEv (le32 (144 + tags_size ts + 4 + len sv) ++ (pre ++ enc_tags ts) ++ le32 (len sv) ++ sv ++ drop (4 + len sv) (drop (tags_size ts) F'))
-               (set_bit (set_bit (ev_complete st) HAVE_TAGS) HAVE_CONTENT) (tags_size ts) (Some (34 :: ev ++ 34 :: rest0)), tail).
+  (* the tags before the content *)
+  Lemma em_tags_T st hdr F' ts T' tail : tagsd ts T' -> tags_size ts <= len F' -> fits_tags ts ->
+    has_bit (ev_complete st) HAVE_TAGS = false -> ev_out st = hdr ++ F' -> len hdr = 144 -> ev_content_start st = None ->
+    event_member st (116 :: 97 :: 103 :: 115 :: 34 :: 58 :: 91 :: T' tail)
+    = Ok (mkEv (hdr ++ enc_tags ts ++ drop (tags_size ts) F') (set_bit (ev_complete st) HAVE_TAGS) (tags_size ts) None, tail).
   Proof.
-    intros HT Hfit He Hc Hb Eo Lx Lh Hcs. unfold event_member.
-    set (txt := 116 :: 97 :: 103 :: 115 :: 34 :: 58 :: 91 :: tags_body tes' tail).
+    intros HT0 Hcp Hfit Hb Eo Lh Hcs. unfold event_member.
+    set (txt := 116 :: 97 :: 103 :: 115 :: 34 :: 58 :: 91 :: T' tail).
     replace (starts_with k_id txt) with false by reflexivity. replace (starts_with k_sig txt) with false by reflexivity.
     replace (starts_with k_kind txt) with false by reflexivity. replace (starts_with k_tags txt) with true by reflexivity.
     rewrite Hb. subst txt.
-    change (drop 5 (116 :: 97 :: 103 :: 115 :: 34 :: 58 :: 91 :: tags_body tes' tail)) with (58 :: 91 :: tags_body tes' tail).
+    change (drop 5 (116 :: 97 :: 103 :: 115 :: 34 :: 58 :: 91 :: T' tail)) with (58 :: 91 :: T' tail).
     rewrite eat_colon_ws_lit by reflexivity. cbn [bind].
     replace (len (ev_out st) <? 144) with false by (symmetry; apply N.ltb_ge; rewrite Eo, len_app; lia).
     rewrite Eo. rewrite <- Lh at 1. rewrite drop_app_len.
-    rewrite (read_tags_array_spec ts tes' F' tail HT ltac:(lia) Hfit). cbn [bind].
+    rewrite (proj1 HT0 F' tail Hcp Hfit). cbn [bind].
+    rewrite <- Lh. rewrite take_app_len. rewrite Hcs. reflexivity.
+  Qed.
+
+  (* the tags after the content: the remembered content is decoded behind them *)
+  Lemma em_tags_late st x0' pre F' ts T' sv ev rest0 tail : tagsd ts T' -> fits_tags ts -> escd sv ev ->
+    tags_size ts + 4 + len sv <= len F' -> has_bit (ev_complete st) HAVE_TAGS = false ->
+    ev_out st = (x0' ++ pre) ++ F' -> len x0' = 4 -> len (x0' ++ pre) = 144 -> ev_content_start st = Some (34 :: ev ++ 34 :: rest0) ->
+    event_member st (116 :: 97 :: 103 :: 115 :: 34 :: 58 :: 91 :: T' tail)
+    = Ok (mkEv (le32 (144 + tags_size ts + 4 + len sv) ++ (pre ++ enc_tags ts) ++ le32 (len sv) ++ sv ++ drop (4 + len sv) (drop (tags_size ts) F'))
+               (set_bit (set_bit (ev_complete st) HAVE_TAGS) HAVE_CONTENT) (tags_size ts) (Some (34 :: ev ++ 34 :: rest0)), tail).
+  Proof.
+    intros HT0 Hfit He Hc Hb Eo Lx Lh Hcs. unfold event_member.
+    set (txt := 116 :: 97 :: 103 :: 115 :: 34 :: 58 :: 91 :: T' tail).
+    replace (starts_with k_id txt) with false by reflexivity. replace (starts_with k_sig txt) with false by reflexivity.
+    replace (starts_with k_kind txt) with false by reflexivity. replace (starts_with k_tags txt) with true by reflexivity.
+    rewrite Hb. subst txt.
+    change (drop 5 (116 :: 97 :: 103 :: 115 :: 34 :: 58 :: 91 :: T' tail)) with (58 :: 91 :: T' tail).
+    rewrite eat_colon_ws_lit by reflexivity. cbn [bind].
+    replace (len (ev_out st) <? 144) with false by (symmetry; apply N.ltb_ge; rewrite Eo, len_app; lia).
+    rewrite Eo. rewrite <- Lh at 1. rewrite drop_app_len.
+    rewrite (proj1 HT0 F' tail ltac:(lia) Hfit). cbn [bind].
     rewrite <- Lh. rewrite take_app_len. rewrite Hcs.
     replace ((x0' ++ pre) ++ enc_tags ts ++ drop (tags_size ts) F') with ((x0' ++ (pre ++ enc_tags ts)) ++ drop (tags_size ts) F')
       by (rewrite <- !app_assoc; reflexivity).
@@ -284,7 +303,7 @@ Section Any.
       + (* the content came first *)
         destruct Es as [rest0 Hcs].
         eexists. split.
-        * apply (em_tags_late st x0 (bK p ++ [0; 0] ++ bC p ++ bI p ++ bP p ++ bS p) F (e_tags e) tes s cj rest0 K H2 Ft Hcj).
+        * apply (em_tags_late st x0 (bK p ++ [0; 0] ++ bC p ++ bI p ++ bP p ++ bS p) F (e_tags e) T s cj rest0 K HT Ft Hcj).
           -- exact Hcap.
           -- rewrite Ec. unfold bits. rewrite Hk, Ex. exact Hb.
           -- rewrite Eo. unfold buf. unfold b0, bT. rewrite Ew, Hk. rewrite <- !app_assoc. reflexivity.
@@ -297,7 +316,7 @@ Section Any.
           -- unfold mark. cbn [ekey_eqb]. reflexivity.
           -- unfold mark. cbn [ekey_eqb]. discriminate.
       + eexists. split.
-        * apply (em_tags st (b0 p ++ bK p ++ [0; 0] ++ bC p ++ bI p ++ bP p ++ bS p) F (e_tags e) tes K H2 ltac:(lia) Ft).
+        * apply (em_tags_T st (b0 p ++ bK p ++ [0; 0] ++ bC p ++ bI p ++ bP p ++ bS p) F (e_tags e) T K HT ltac:(lia) Ft).
           -- rewrite Ec. unfold bits. rewrite Hk, Ex. exact Hb.
           -- rewrite Eo. unfold buf. unfold bT. rewrite Hk. rewrite <- !app_assoc. reflexivity.
           -- lens.
@@ -494,7 +513,7 @@ Section Any.
     | KSig => 34 :: write_hex (e_sig e) ++ 34 :: K
     | KKind => dec (e_kind e) ++ K
     | KCreated => dec (e_created e) ++ K
-    | KTags => 91 :: tags_body tes K
+    | KTags => 91 :: T K
     | KContent => 34 :: cj ++ 34 :: K
     end.
   Lemma mbody_split k K : mbody k K = kname k ++ 58 :: vtext k K.
@@ -660,9 +679,9 @@ Section Text.
   Hypothesis Lpk : len (e_pk e) = 32.
   Hypothesis Lsg : len (e_sig e) = 64.
 
-  Lemma jmember_mbody k K : jmember e tj cj k K = mbody e tes cj k K.
+  Lemma jmember_mbody k K : jmember e tj cj k K = mbody e (tags_body tes) cj k K.
   Proof. destruct k; cbn [jmember mbody]; try reflexivity. rewrite Htxt. reflexivity. Qed.
-  Lemma jclose_mclose ms tail : jclose e tj cj ms tail = mclose e tes cj ms tail.
+  Lemma jclose_mclose ms tail : jclose e tj cj ms tail = mclose e (tags_body tes) cj ms tail.
   Proof. induction ms as [|k r IH]; cbn [jclose mclose]; [reflexivity|]. rewrite IH, jmember_mbody. reflexivity. Qed.
 
   Lemma jmember_length k K : (kw k + length K <= length (jmember e tj cj k K))%nat.
@@ -718,10 +737,10 @@ Proof.
   replace (x0 ++ x4 ++ x6 ++ x8 ++ x16 ++ x48 ++ x80 ++ F) with ((x0 ++ x4) ++ x6 ++ (x8 ++ x16 ++ x48 ++ x80 ++ F)) by (rewrite <- !app_assoc; reflexivity).
   rewrite (put_raw_at (x0 ++ x4) x6 [0; 0] _ 6) by (rewrite ?len_app; change (len [0; 0]) with 2; lia). cbn [bind].
   replace ((x0 ++ x4) ++ [0; 0] ++ x8 ++ x16 ++ x48 ++ x80 ++ F) with (x0 ++ x4 ++ [0; 0] ++ x8 ++ x16 ++ x48 ++ x80 ++ F) by (rewrite <- !app_assoc; reflexivity).
-  assert (Etxt : txt = 123 :: 34 :: mbody e tes cj k (mclose e tes cj r tail)).
+  assert (Etxt : txt = 123 :: 34 :: mbody e (tags_body tes) cj k (mclose e (tags_body tes) cj r tail)).
   { subst txt. cbn [event_text]. rewrite (jmember_mbody e tj cj tes Htxt), (jclose_mclose e tj cj tes Htxt). reflexivity. }
   rewrite Etxt at 1. rewrite (eat_ws_nonws 123) by reflexivity. cbn [verify_char]. change (123 =? 123) with true. cbv iota. cbn [bind].
-  destruct (members_any_order e tes cj W H2 (escd0_escd _ _ (conj Vc Hcj)) x0 x4 x8 x16 x48 x80 F L0 L4 L8 L16 L48 L80 ltac:(lia) k r (length txt - 6) tail Hnd (fun k' => Hall k'))
+  destruct (members_any_order e (tags_body tes) cj W (tagsd_plain _ _ H2) (escd0_escd _ _ (conj Vc Hcj)) x0 x4 x8 x16 x48 x80 F L0 L4 L8 L16 L48 L80 ltac:(lia) k r (length txt - 6) tail Hnd (fun k' => Hall k'))
     as [st' [Hl [Ec Eo]]].
   replace (Datatypes.S (length txt)) with (Datatypes.S (length r) + (length txt - 6))%nat by lia.
   rewrite Hl. cbn [bind]. rewrite Ec. change (127 =? 127) with true. cbv iota. rewrite Eo.
@@ -765,9 +784,9 @@ Section TextU.
   Hypothesis Lpk : len (e_pk e) = 32.
   Hypothesis Lsg : len (e_sig e) = 64.
 
-  Lemma jbody_embody m K : jbody e tj cj m K = embody e tes cj m K.
+  Lemma jbody_embody m K : jbody e tj cj m K = embody e (tags_body tes) cj m K.
   Proof. destruct m; cbn [jbody embody]; [apply (jmember_mbody e tj cj tes Htxt)|reflexivity]. Qed.
-  Lemma juclose_uclose ms tail : juclose e tj cj ms tail = uclose e tes cj ms tail.
+  Lemma juclose_uclose ms tail : juclose e tj cj ms tail = uclose e (tags_body tes) cj ms tail.
   Proof. induction ms as [|m r IH]; cbn [juclose uclose]; [reflexivity|]. rewrite IH, jbody_embody. reflexivity. Qed.
   Lemma jbody_length m K : (kwm m + length K <= length (jbody e tj cj m K))%nat.
   Proof.
@@ -816,10 +835,10 @@ Proof.
   replace (x0 ++ x4 ++ x6 ++ x8 ++ x16 ++ x48 ++ x80 ++ F) with ((x0 ++ x4) ++ x6 ++ (x8 ++ x16 ++ x48 ++ x80 ++ F)) by (rewrite <- !app_assoc; reflexivity).
   rewrite (put_raw_at (x0 ++ x4) x6 [0; 0] _ 6) by (rewrite ?len_app; change (len [0; 0]) with 2; lia). cbn [bind].
   replace ((x0 ++ x4) ++ [0; 0] ++ x8 ++ x16 ++ x48 ++ x80 ++ F) with (x0 ++ x4 ++ [0; 0] ++ x8 ++ x16 ++ x48 ++ x80 ++ F) by (rewrite <- !app_assoc; reflexivity).
-  assert (Etxt : txt = 123 :: 34 :: embody e tes cj k (uclose e tes cj r tail)).
+  assert (Etxt : txt = 123 :: 34 :: embody e (tags_body tes) cj k (uclose e (tags_body tes) cj r tail)).
   { subst txt. cbn [event_text_u]. rewrite (jbody_embody e tj cj tes Htxt), (juclose_uclose e tj cj tes Htxt). reflexivity. }
   rewrite Etxt at 1. rewrite (eat_ws_nonws 123) by reflexivity. cbn [verify_char]. change (123 =? 123) with true. cbv iota. cbn [bind].
-  destruct (members_any_order_u e tes cj W H2 (escd0_escd _ _ (conj Vc Hcj)) x0 x4 x8 x16 x48 x80 F L0 L4 L8 L16 L48 L80 ltac:(lia) k r (length txt - length r) tail Hok Hnd (fun k' => Hall k'))
+  destruct (members_any_order_u e (tags_body tes) cj W (tagsd_plain _ _ H2) (escd0_escd _ _ (conj Vc Hcj)) x0 x4 x8 x16 x48 x80 F L0 L4 L8 L16 L48 L80 ltac:(lia) k r (length txt - length r) tail Hok Hnd (fun k' => Hall k'))
     as [st' [Hl [Ec Eo]]].
   replace (Datatypes.S (length txt)) with (Datatypes.S (length r) + (length txt - length r))%nat by lia.
   rewrite Hl. cbn [bind]. rewrite Ec. change (127 =? 127) with true. cbv iota. rewrite Eo.
@@ -882,11 +901,11 @@ Section TextW.
   Hypothesis Lpk : len (e_pk e) = 32.
   Hypothesis Lsg : len (e_sig e) = 64.
 
-  Lemma jvtext_vtext k K : jvtext e tj cj k K = vtext e tes cj k K.
+  Lemma jvtext_vtext k K : jvtext e tj cj k K = vtext e (tags_body tes) cj k K.
   Proof. destruct k; cbn [jvtext vtext]; try reflexivity. apply Htxt. Qed.
-  Lemma jbody_ws_embody m wb wc K : jbody_ws e tj cj m wb wc K = embody_ws e tes cj m wb wc K.
+  Lemma jbody_ws_embody m wb wc K : jbody_ws e tj cj m wb wc K = embody_ws e (tags_body tes) cj m wb wc K.
   Proof. destruct m; cbn [jbody_ws embody_ws]; [rewrite jvtext_vtext|]; reflexivity. Qed.
-  Lemma jwclose_wclose ms tail : jwclose e tj cj ms tail = wclose e tes cj ms tail.
+  Lemma jwclose_wclose ms tail : jwclose e tj cj ms tail = wclose e (tags_body tes) cj ms tail.
   Proof. induction ms as [|x r IH]; cbn [jwclose wclose]; [reflexivity|]. rewrite IH, jbody_ws_embody. reflexivity. Qed.
   Lemma jmember_split k K : jmember e tj cj k K = kname k ++ 58 :: jvtext e tj cj k K.
   Proof. destruct k; reflexivity. Qed.
@@ -940,11 +959,11 @@ Proof.
   replace (x0 ++ x4 ++ x6 ++ x8 ++ x16 ++ x48 ++ x80 ++ F) with ((x0 ++ x4) ++ x6 ++ (x8 ++ x16 ++ x48 ++ x80 ++ F)) by (rewrite <- !app_assoc; reflexivity).
   rewrite (put_raw_at (x0 ++ x4) x6 [0; 0] _ 6) by (rewrite ?len_app; change (len [0; 0]) with 2; lia). cbn [bind].
   replace ((x0 ++ x4) ++ [0; 0] ++ x8 ++ x16 ++ x48 ++ x80 ++ F) with (x0 ++ x4 ++ [0; 0] ++ x8 ++ x16 ++ x48 ++ x80 ++ F) by (rewrite <- !app_assoc; reflexivity).
-  assert (Etxt : txt = w0 ++ 123 :: wm_a x ++ 34 :: embody_ws e tes cj (wm_m x) (wm_b x) (wm_c x) (wm_d x ++ wclose e tes cj r tail)).
+  assert (Etxt : txt = w0 ++ 123 :: wm_a x ++ 34 :: embody_ws e (tags_body tes) cj (wm_m x) (wm_b x) (wm_c x) (wm_d x ++ wclose e (tags_body tes) cj r tail)).
   { subst txt. cbn [event_text_w]. rewrite (jbody_ws_embody e tj cj tes Htxt), (jwclose_wclose e tj cj tes Htxt). reflexivity. }
   rewrite Etxt at 1. rewrite (eat_ws_app w0 123) by (try assumption; reflexivity).
   cbn [verify_char]. change (123 =? 123) with true. cbv iota. cbn [bind].
-  destruct (members_any_order_w e tes cj W H2 (escd0_escd _ _ (conj Vc Hcj)) x0 x4 x8 x16 x48 x80 F L0 L4 L8 L16 L48 L80 ltac:(lia) x r (length txt - length r) tail Hok Hnd (fun k' => Hall k'))
+  destruct (members_any_order_w e (tags_body tes) cj W (tagsd_plain _ _ H2) (escd0_escd _ _ (conj Vc Hcj)) x0 x4 x8 x16 x48 x80 F L0 L4 L8 L16 L48 L80 ltac:(lia) x r (length txt - length r) tail Hok Hnd (fun k' => Hall k'))
     as [st' [Hl [Ec Eo]]].
   replace (Datatypes.S (length txt)) with (Datatypes.S (length r) + (length txt - length r))%nat by lia.
   rewrite Hl. cbn [bind]. rewrite Ec. change (127 =? 127) with true. cbv iota. rewrite Eo.
@@ -981,78 +1000,65 @@ Corollary event_ws_independent e tj cj w0 ms tail w0' ms' tail' out :
                event_from_json (event_text_w e tj cj w0' ms' tail') out = Ok (c', enc_event e, enc_event e ++ drop (event_size e) out).
 Proof. intros. eexists _, _. split; apply event_any_order_ws; assumption. Qed.
 
-(* ====================== any spelling of the strings ====================== *)
-(* the text of an event whose tag strings are spelled [tes] and whose content is spelled [cj] - ANY spellings in the
-   relation escd (Spelling.v: literal characters, two-character escapes, \uXXXX in either case, mixed freely) -
-   with the members in any order, unknown members, and white space between the tokens of the object *)
-Definition event_text_s (e : aevent) (tes : list (list bytes)) (cj : bytes) (w0 : bytes) (ms : list wm) (tail : bytes) : bytes :=
+(* ====================== any spelling of the strings, any text of the tags ====================== *)
+(* the text of an event whose tags array is written T (any text in the relation tagsd: TagsWs.v) and whose content is
+   spelled [cj] (any spelling in the relation escd: Spelling.v), with the members in any order, unknown members, and
+   white space between the tokens of the object *)
+Definition event_text_T (e : aevent) (T : bytes -> bytes) (cj : bytes) (w0 : bytes) (ms : list wm) (tail : bytes) : bytes :=
   match ms with
   | [] => w0 ++ 123 :: 125 :: tail
-  | x :: r => w0 ++ 123 :: wm_a x ++ 34 :: embody_ws e tes cj (wm_m x) (wm_b x) (wm_c x) (wm_d x ++ wclose e tes cj r tail)
+  | x :: r => w0 ++ 123 :: wm_a x ++ 34 :: embody_ws e T cj (wm_m x) (wm_b x) (wm_c x) (wm_d x ++ wclose e T cj r tail)
   end.
-
-Lemma strs_text_len es : forall tail, (length tail <= length (strs_text es tail))%nat.
-Proof.
-  induction es as [|e0 r0 IH0]; intros tl0; cbn [strs_text]; [lia|]. destruct r0.
-  - rewrite app_length. cbn [length]. lia.
-  - rewrite app_length. cbn [length]. specialize (IH0 tl0). lia.
-Qed.
-Lemma tag_text_len es tail : (length tail <= length (tag_text es tail))%nat.
-Proof. destruct es; cbn [tag_text length]; [lia|]. pose proof (strs_text_len (b :: es) tail). lia. Qed.
-Lemma tags_text_len tes : forall tail, (length tail <= length (tags_text tes tail))%nat.
-Proof.
-  induction tes as [|es r IH]; intros tail; cbn [tags_text]; [lia|]. destruct r as [|es1 r1].
-  - pose proof (tag_text_len es (93 :: tail)). cbn [length] in *. lia.
-  - pose proof (tag_text_len es (44 :: 91 :: tags_text (es1 :: r1) tail)). specialize (IH tail). cbn [length] in *. lia.
-Qed.
-Lemma tags_body_len tes tail : (length tail <= length (tags_body tes tail))%nat.
-Proof. destruct tes; cbn [tags_body length]; [lia|]. pose proof (tags_text_len (l :: tes) tail). lia. Qed.
+(* tag strings spelled [tes], no white space inside the array *)
+Definition event_text_s (e : aevent) (tes : list (list bytes)) (cj : bytes) (w0 : bytes) (ms : list wm) (tail : bytes) : bytes :=
+  event_text_T e (tags_body tes) cj w0 ms tail.
 
 Section TextS.
   Variable e : aevent.
-  Variable tes : list (list bytes).
+  Variable T : bytes -> bytes.
   Variable cj : bytes.
+  Hypothesis HTl : forall tail, (length tail <= length (T tail))%nat.
   Hypothesis Lid : len (e_id e) = 32.
   Hypothesis Lpk : len (e_pk e) = 32.
   Hypothesis Lsg : len (e_sig e) = 64.
 
-  Lemma embody_ws_length m wb wc K : (kwm m + length K <= length (embody_ws e tes cj m wb wc K))%nat.
+  Lemma embody_ws_length m wb wc K : (kwm m + length K <= length (embody_ws e T cj m wb wc K))%nat.
   Proof.
     assert (A : length (e_id e) = 32%nat) by (unfold len in Lid; lia).
     assert (B : length (e_pk e) = 32%nat) by (unfold len in Lpk; lia).
     assert (C : length (e_sig e) = 64%nat) by (unfold len in Lsg; lia).
     destruct m as [k|key v]; cbn [embody_ws kwm].
-    - pose proof (tags_body_len tes K) as T.
+    - pose proof (HTl K) as TK.
       destruct k; cbn [kname vtext kw]; repeat (first [rewrite app_length | rewrite length_write_hex | progress (cbn [length])]); lia.
     - rewrite !app_length. cbn [length]. rewrite !app_length. cbn [length]. rewrite !app_length. lia.
   Qed.
-  Lemma wclose_length ms tail : (list_sum (map kwm (map wm_m ms)) + length tail <= length (wclose e tes cj ms tail))%nat /\
-                                (length ms <= length (wclose e tes cj ms tail))%nat.
+  Lemma wclose_length ms tail : (list_sum (map kwm (map wm_m ms)) + length tail <= length (wclose e T cj ms tail))%nat /\
+                                (length ms <= length (wclose e T cj ms tail))%nat.
   Proof.
     unfold list_sum. induction ms as [|x r [IH1 IH2]]; cbn [wclose map fold_right length]; [split; lia|].
-    pose proof (embody_ws_length (wm_m x) (wm_b x) (wm_c x) (wm_d x ++ wclose e tes cj r tail)) as H.
+    pose proof (embody_ws_length (wm_m x) (wm_b x) (wm_c x) (wm_d x ++ wclose e T cj r tail)) as H.
     rewrite !app_length in *. cbn [length]. split; lia.
   Qed.
 End TextS.
 
-Theorem event_any_spelling e tes cj w0 ms tail out :
-  wf_event_json e -> Forall2 (Forall2 escd) (e_tags e) tes -> escd (e_content e) cj ->
+Theorem event_any_T e T cj w0 ms tail out :
+  wf_event_json e -> tagsd (e_tags e) T -> escd (e_content e) cj ->
   wsb w0 -> Forall wm_ok ms -> NoDup (known (map wm_m ms)) -> (forall k, In k (known (map wm_m ms))) -> event_size e <= len out ->
-  event_from_json (event_text_s e tes cj w0 ms tail) out
-  = Ok (len (event_text_s e tes cj w0 ms tail) - len tail, enc_event e, enc_event e ++ drop (event_size e) out).
+  event_from_json (event_text_T e T cj w0 ms tail) out
+  = Ok (len (event_text_T e T cj w0 ms tail) - len tail, enc_event e, enc_event e ++ drop (event_size e) out).
 Proof.
-  intros W H2 Hcj Hw0 Hok Hnd Hall Hcap.
+  intros W HT Hcj Hw0 Hok Hnd Hall Hcap.
   pose proof W as (Wid & Lid & Wpk & Lpk & Wsg & Lsg & Hk & Hc & Vt & Ft & Vc & Hsz).
   pose proof (tags_size_ge4 (e_tags e)) as Hts4. unfold event_size in Hcap, Hsz.
   assert (Hperm : Permutation (known (map wm_m ms)) all_keys).
   { apply NoDup_Permutation; [exact Hnd|repeat constructor; cbn; intuition discriminate|].
     intros k. split; [intros _; destruct k; cbn; auto 8|intros _; apply Hall]. }
   destruct ms as [|x r]; [exfalso; exact (Hall KId)|].
-  set (txt := event_text_s e tes cj w0 (x :: r) tail).
+  set (txt := event_text_T e T cj w0 (x :: r) tail).
   assert (Hlen : (256 + length tail <= length txt)%nat /\ (length r <= length txt)%nat).
-  { subst txt. cbn [event_text_s]. rewrite app_length. cbn [length]. rewrite app_length. cbn [length].
-    pose proof (embody_ws_length e tes cj Lid Lpk Lsg (wm_m x) (wm_b x) (wm_c x) (wm_d x ++ wclose e tes cj r tail)) as H1.
-    pose proof (wclose_length e tes cj Lid Lpk Lsg r tail) as [H2' H3'].
+  { subst txt. cbn [event_text_T]. rewrite app_length. cbn [length]. rewrite app_length. cbn [length].
+    pose proof (embody_ws_length e T cj (proj2 HT) Lid Lpk Lsg (wm_m x) (wm_b x) (wm_c x) (wm_d x ++ wclose e T cj r tail)) as H1.
+    pose proof (wclose_length e T cj (proj2 HT) Lid Lpk Lsg r tail) as [H2' H3'].
     pose proof (list_sum_perm _ _ (Permutation_map kw Hperm)) as Hs. unfold list_sum in *. cbn [map fold_right all_keys kw] in Hs.
     pose proof (kwm_known (map wm_m (x :: r))) as Hkk. unfold list_sum in Hkk. cbn [map fold_right] in Hkk. rewrite Hkk in Hs.
     rewrite app_length in H1. lia. }
@@ -1066,10 +1072,10 @@ Proof.
   replace (x0 ++ x4 ++ x6 ++ x8 ++ x16 ++ x48 ++ x80 ++ F) with ((x0 ++ x4) ++ x6 ++ (x8 ++ x16 ++ x48 ++ x80 ++ F)) by (rewrite <- !app_assoc; reflexivity).
   rewrite (put_raw_at (x0 ++ x4) x6 [0; 0] _ 6) by (rewrite ?len_app; change (len [0; 0]) with 2; lia). cbn [bind].
   replace ((x0 ++ x4) ++ [0; 0] ++ x8 ++ x16 ++ x48 ++ x80 ++ F) with (x0 ++ x4 ++ [0; 0] ++ x8 ++ x16 ++ x48 ++ x80 ++ F) by (rewrite <- !app_assoc; reflexivity).
-  assert (Etxt : txt = w0 ++ 123 :: wm_a x ++ 34 :: embody_ws e tes cj (wm_m x) (wm_b x) (wm_c x) (wm_d x ++ wclose e tes cj r tail)) by reflexivity.
+  assert (Etxt : txt = w0 ++ 123 :: wm_a x ++ 34 :: embody_ws e T cj (wm_m x) (wm_b x) (wm_c x) (wm_d x ++ wclose e T cj r tail)) by reflexivity.
   rewrite Etxt at 1. rewrite (eat_ws_app w0 123) by (try assumption; reflexivity).
   cbn [verify_char]. change (123 =? 123) with true. cbv iota. cbn [bind].
-  destruct (members_any_order_w e tes cj W H2 Hcj x0 x4 x8 x16 x48 x80 F L0 L4 L8 L16 L48 L80 ltac:(lia) x r (length txt - length r) tail Hok Hnd (fun k' => Hall k'))
+  destruct (members_any_order_w e T cj W HT Hcj x0 x4 x8 x16 x48 x80 F L0 L4 L8 L16 L48 L80 ltac:(lia) x r (length txt - length r) tail Hok Hnd (fun k' => Hall k'))
     as [st' [Hl [Ec Eo]]].
   replace (Datatypes.S (length txt)) with (Datatypes.S (length r) + (length txt - length r))%nat by lia.
   rewrite Hl. cbn [bind]. rewrite Ec. change (127 =? 127) with true. cbv iota. rewrite Eo.
@@ -1092,6 +1098,13 @@ Proof.
   rewrite take_app_len. reflexivity.
 Qed.
 
+Theorem event_any_spelling e tes cj w0 ms tail out :
+  wf_event_json e -> Forall2 (Forall2 escd) (e_tags e) tes -> escd (e_content e) cj ->
+  wsb w0 -> Forall wm_ok ms -> NoDup (known (map wm_m ms)) -> (forall k, In k (known (map wm_m ms))) -> event_size e <= len out ->
+  event_from_json (event_text_s e tes cj w0 ms tail) out
+  = Ok (len (event_text_s e tes cj w0 ms tail) - len tail, enc_event e, enc_event e ++ drop (event_size e) out).
+Proof. intros W H2. unfold event_text_s. apply event_any_T; [exact W | apply tagsd_plain; exact H2]. Qed.
+
 (* canonicity: ANY two texts of one event - differing in the spelling of every tag string and of the content, in member
    order, unknown members and white space between the tokens of the object - parse to byte-identical binary events *)
 Corollary event_spelling_independent e tes cj w0 ms tail tes' cj' w0' ms' tail' out :
@@ -1104,6 +1117,28 @@ Corollary event_spelling_independent e tes cj w0 ms tail tes' cj' w0' ms' tail' 
   exists c c', event_from_json (event_text_s e tes cj w0 ms tail) out = Ok (c, enc_event e, enc_event e ++ drop (event_size e) out) /\
                event_from_json (event_text_s e tes' cj' w0' ms' tail') out = Ok (c', enc_event e, enc_event e ++ drop (event_size e) out).
 Proof. intros. eexists _, _. split; apply event_any_spelling; assumption. Qed.
+
+(* THE FULL GRAMMAR (C01): the seven members in any order, unknown members anywhere, every escape spelling of every string,
+   and white space in every place the parser accepts it - between the tokens of the object AND inside the tags array
+   (after every bracket, comma and closing quote) *)
+Theorem event_full_grammar e w1 wtes cj w0 ms tail out :
+  wf_event_json e -> wsb w1 -> Forall2 wtag_ok (e_tags e) wtes -> escd (e_content e) cj ->
+  wsb w0 -> Forall wm_ok ms -> NoDup (known (map wm_m ms)) -> (forall k, In k (known (map wm_m ms))) -> event_size e <= len out ->
+  event_from_json (event_text_T e (wtags_body w1 wtes) cj w0 ms tail) out
+  = Ok (len (event_text_T e (wtags_body w1 wtes) cj w0 ms tail) - len tail, enc_event e, enc_event e ++ drop (event_size e) out).
+Proof. intros W W1 H2. apply event_any_T; [exact W | apply tagsd_ws; assumption]. Qed.
+
+(* canonicity over the full grammar: any two such texts of one event give identical bytes *)
+Corollary event_full_grammar_canonical e w1 wtes cj w0 ms tail w1' wtes' cj' w0' ms' tail' out :
+  wf_event_json e ->
+  wsb w1 -> Forall2 wtag_ok (e_tags e) wtes -> escd (e_content e) cj ->
+  wsb w0 -> Forall wm_ok ms -> NoDup (known (map wm_m ms)) -> (forall k, In k (known (map wm_m ms))) ->
+  wsb w1' -> Forall2 wtag_ok (e_tags e) wtes' -> escd (e_content e) cj' ->
+  wsb w0' -> Forall wm_ok ms' -> NoDup (known (map wm_m ms')) -> (forall k, In k (known (map wm_m ms'))) ->
+  event_size e <= len out ->
+  exists c c', event_from_json (event_text_T e (wtags_body w1 wtes) cj w0 ms tail) out = Ok (c, enc_event e, enc_event e ++ drop (event_size e) out) /\
+               event_from_json (event_text_T e (wtags_body w1' wtes') cj' w0' ms' tail') out = Ok (c', enc_event e, enc_event e ++ drop (event_size e) out).
+Proof. intros. eexists _, _. split; apply event_full_grammar; assumption. Qed.
 
 (* order independence: two texts with the seven members in different orders give the same bytes *)
 Corollary event_order_independent e tj cj ms ms' tail tail' out :
